@@ -189,6 +189,8 @@ ProxyProtocol::Two::ParseAddresses(const uint8_t family, Parser::BinaryTokenizer
     case afUnix: { // TODO: add support
         // the address block length is 216 bytes
         tok.skip(216, "unix_addr");
+        // AF_UNIX paths are not IP addresses: there is nothing to forward
+        header->ignoreAddresses();
         break;
     }
 
@@ -246,7 +248,7 @@ ProxyProtocol::Two::Parse(const SBuf &buf)
         Parser::BinaryTokenizer leftoverTok(rawHeader);
         ParseAddresses(family, leftoverTok, header);
         // TODO: parse TLVs for LOCAL connections
-        if (header->hasForwardedAddresses())
+        if (header->hasForwardedAddresses() || (family == afUnix && command == cmdProxy))
             ParseTLVs(leftoverTok, header);
     }
 
